@@ -303,6 +303,15 @@ def run(rep, repo, tier):
         yield "quantized_relu_po2", dict(bits=4, max_value=mv, **fk)
         yield "quantized_relu_po2", dict(bits=4, max_value=mv,
                                          negative_slope=F(1, 4), **fk)
+    # ... and the straight-through switch spelled as the integer 1 (the
+    # spelling quantizer strings use for every boolean option)
+    fs_ = qref.f_tensor()
+    for cls_ in ("quantized_bits", "quantized_relu", "quantized_po2",
+                 "quantized_relu_po2", "quantized_hswish"):
+      yield cls_, dict(bits=4, use_ste=1, qnoise_factor=fs_)
+      yield cls_, dict(bits=4, use_ste=1)
+    yield "quantized_bits", dict(bits=4, integer=1, alpha="auto_po2",
+                                 use_ste=1, qnoise_factor=fs_)
   for cls, kw in itertools.chain(qref.lattice_all(tier), steep_slopes(),
                                  number_kinds()):
     phases = ["infer"]
